@@ -2,7 +2,7 @@
 objects over generated merit-function families (with fault injection in the user's action), and the recorded calls are validated
 against the trace specification of Optimizer.tla, which names every violated clause."""
 import collections, json, os, random, re, shutil, tempfile, concurrent.futures as cf
-from . import tlc, build, par, tlaval
+from . import tlc, build, par, tlaval, optproto
 from .common import SPEC, Machinery, Verdict, seed, tier as get_tier
 from . import opt_driver as od
 
@@ -63,25 +63,56 @@ def validate(traces, workers=6, batch=400):
     return verdicts, states
 
 
-def design_model(prop, q):
-    """The protocol model (abstract solver, raising action at every evaluation) explored exhaustively: the invariants named after `prop`."""
-    invs = [i for i in ("C09_ok", "C09_restore", "C10_inlim", "C10_flags", "C10_fixed", "C15_best", "C15_reload", "C15_last") if i.startswith(prop)]
-    cfg = os.path.join(tempfile.mkdtemp(prefix="optmodel-"), "OptimizerModel.cfg")
+INVS = ("C09_ok", "C09_restore", "C10_inlim", "C10_flags", "C10_fixed", "C15_best", "C15_reload", "C15_last")
+PROBES = ("reload_moves", "reload_flags", "take_best_reload", "solve_ok", "solve_restored", "solve_fault_restored", "restore_fails", "norestore", "stay",
+          "limit_refusal", "probe_left_outside", "clear_fault", "solver_gives_up", "temp_flags", "temp_flags_left", "retarget_solve")
+
+
+def _proto_cfg(invs, maxcalls, maxfaults):
+    d = tempfile.mkdtemp(prefix="optproto-")
+    cfg = os.path.join(d, "MC_OptProto.cfg")
     with open(cfg, "w") as fh:
-        fh.write("SPECIFICATION Spec\nCONSTANTS\n  MaxCalls = %d\n  MaxFaults = 2\n  Restore = TRUE\n"
-                 '  Scenarios = {"converges", "inconsistent", "matched-start", "nonmonotone"}\n' % (2 if q else 3))
+        fh.write("SPECIFICATION Spec\nCONSTANTS\n  MaxCalls = %d\n  MaxFaults = %d\n" % (maxcalls, maxfaults))
         fh.write("".join("INVARIANT %s\n" % i for i in invs) + "CHECK_DEADLOCK FALSE\n")
-    r = tlc.run("OptimizerModel.tla", cfg, workers=14, timeout=3000, heap="8g")
-    shutil.rmtree(os.path.dirname(cfg), ignore_errors=True)
+    return cfg
+
+
+def design_model(prop, q):
+    """OptProto.tla over the design environments of MC_OptProto.tla (abstract solver, the action raising at any evaluation), explored exhaustively for the
+    invariants named after `prop`; the thorough tier also runs the reachability probes (each must be violated: the situation is reached)"""
+    invs = [i for i in INVS if i.startswith(prop)]
+    cfg = _proto_cfg(invs, 2 if q else 3, 1 if q else 2)
+    try:
+        r = tlc.run("MC_OptProto.tla", cfg, workers=14, timeout=6000, heap="10g")
+    finally:
+        shutil.rmtree(os.path.dirname(cfg), ignore_errors=True)
     if not r.ok:
-        raise Machinery("OptimizerModel.tla does not satisfy %s any more (a change of the specification, not of the code):\n%s" % (invs, (r.violation or r.out)[-3000:]))
-    return r, invs
+        raise Machinery("OptProto.tla does not satisfy %s any more (a change of the specification, not of the code):\n%s" % (invs, (r.violation or r.out)[-3000:]))
+    reached = probes() if not q else None
+    return r, invs, reached
+
+
+def probes():
+    """-> list of probe names reached; raises Machinery when a probe is not reached (an action of the protocol model can no longer happen)"""
+    def one(name):
+        cfg = _proto_cfg(["Probe_" + name], 2, 2)
+        try:
+            r = tlc.run("MC_OptProto.tla", cfg, workers=2, timeout=3000, heap="3g")
+        finally:
+            shutil.rmtree(os.path.dirname(cfg), ignore_errors=True)
+        return name, bool(r.violation and ("Probe_" + name) in r.violation)
+    with cf.ThreadPoolExecutor(max_workers=6) as ex:
+        res = dict(ex.map(one, PROBES))
+    missing = [k for k, v in res.items() if not v]
+    if missing:
+        raise Machinery("OptProto.tla: situations no longer reachable in the design model (vacuous invariants): %s" % missing)
+    return sorted(res)
 
 
 def run(prop, level, rule):
     q = get_tier() == "quick"
     v = Verdict(prop, level, get_tier(), rule)
-    rm, minvs = design_model(prop, q)
+    rm, minvs, reached = design_model(prop, q)
     scratch = build.build("pure")
     rnd = random.Random(seed())
     seqs, r0 = call_sequences(3 if q else 4)
@@ -90,7 +121,7 @@ def run(prop, level, rule):
     jobs = []
     # half of the sampled sequences are drawn from those in which solver calls interact with flag changes / reloads (at least two
     # step/solve calls and one enable/disable/reload/clear_log): contracts about "the most recent point" vs "some earlier point" live there
-    rich = [s for s in seqs if sum(c["ev"] in ("Solve", "Step") for c in s) >= 2 and any(c["ev"] in ("Enable", "Disable", "Reload", "ClearLog") for c in s)] or seqs
+    rich = [s for s in seqs if sum(c["ev"] in ("Solve", "Step") for c in s) >= 2 and any(c["ev"] in ("Enable", "Disable", "Reload", "ClearLog", "Retarget") for c in s)] or seqs
     for p in problems:
         for s in rnd.sample(seqs, 4 if q else 12) + rnd.sample(rich, 4 if q else 12):
             jobs.append((p, s, None))
@@ -106,6 +137,22 @@ def run(prop, level, rule):
             readables[len(traces)] = rd
             traces.append(t)
     verdicts, tstates = validate(traces)
+    # the same sessions as behaviours of the protocol model: for every call TLC searches the micro-steps of OptProto.tla for a path to the logged state
+    rejected, pstates = optproto.validate(traces)
+    nrej = collections.Counter()
+    for ti in sorted(rejected):
+        acc, n = rejected[ti]
+        t = traces[ti]
+        evf = dict(t["events"][acc], nk=t["nk"])
+        pr = optproto.attribute(evf)
+        nrej[pr] += 1
+        if pr == prop:
+            spec, calls, fmode = jobs[t["job"]]
+            evr = readables[ti]["events"][acc]
+            v.violation(f"[OptProto.tla] call {acc + 1} ({evr['ev']} -> {evr['out']}) of trace job={t['job']} fault={t.get('fault')} is not a behaviour of the protocol: "
+                        f"no sequence of its micro-steps leads from the state before the call to the logged rows / knobs / flags / outcome",
+                        {"engine": "opt_proto", "problem": {k: spec[k] for k in spec}, "fault": t.get("fault"), "calls": calls, "accepted_calls": acc,
+                         "events": readables[ti]["events"], "env": t["env"]})
     nclauses = collections.Counter()
     for ti, bad in verdicts.items():
         mine = [(l, c) for l, c in bad if c.startswith(prop + ".")]
@@ -123,8 +170,10 @@ def run(prop, level, rule):
     for s in list(readables.values())[:2]:
         v.sample({"calls": [e["ev"] + "->" + e["out"] for e in s["events"]], "first_event": {k: s["events"][0][k] for k in ("ev", "out", "af")}})
     v.add(stats["events"])
-    v.set(states=tstates + r0.distinct + rm.distinct, transitions=stats["events"] + r0.states + rm.states,
-          design_model={"module": "OptimizerModel.tla", "invariants": minvs, "distinct_states": rm.distinct, "depth": rm.depth, "exhaustive": True}, traces_validated_against_impl=stats["traces"],
+    v.set(states=tstates + pstates + r0.distinct + rm.distinct, transitions=2 * stats["events"] + r0.states + rm.states,
+          design_model={"module": "OptProto.tla / MC_OptProto.tla", "invariants": minvs, "distinct_states": rm.distinct, "depth": rm.depth, "exhaustive": True,
+                        "probes_reached": reached if reached is not None else "thorough tier / ./check selftest"},
+          protocol_traces={"module": "OptProtoTrace.tla", "traces": len(traces), "rejected_by_property": dict(nrej), "states": pstates}, traces_validated_against_impl=stats["traces"],
           distinct_nontrivial=stats["failing_calls"] + stats["twin_checked"], call_sequences_enumerated=len(seqs), problems=nprob,
           driver_stats=dict(stats), violated_clause_instances=dict(nclauses), exhaustive=False)
     v.assume("the numeric content of every measurement (penalties, tolerances, limits, step sizes) is computed by the harness oracle from the user function; TLC decides "
@@ -134,8 +183,10 @@ def run(prop, level, rule):
     return v.finish()
 
 
-RULE = ("OptimizerModel.tla (the step / solve / reload / tag / clear_log / enable / disable protocol over an abstract solver and an action that may raise at every "
-        "evaluation) is explored exhaustively for the invariants of this property; the code is bound by traces: "
+RULE = ("OptProto.tla (the step / solve / reload / tag / clear_log / enable / disable protocol over an abstract solver and an action that may raise at every "
+        "evaluation) is explored exhaustively for the invariants of this property over the design environments of MC_OptProto.tla; the code is bound by traces, "
+        "checked twice: OptProtoTrace.tla searches, for every recorded call, a path of the protocol's micro-steps to the logged state (environment = oracle "
+        "measurements of the visited points), and Optimizer.tla evaluates the named clauses: "
         "OptCalls.tla enumerates every call sequence of length <= 3 (4 thorough) over step (n, take_best, broyden, temporary disable_vary / disable_vary_name / "
         "disable_target / enable_vary) / solve / reload(first, last, mid, tag) / tag / clear_log / enable / disable; sampled sequences are executed on real Optimize objects over "
         "seeded problems (limits placing the solution outside, per-knob max_step, unit and non-unit weights, Broyden), fault-free and with the user's action raising at "
